@@ -211,7 +211,13 @@ def run_real(spec, parallel=None):
     obj = oqupy.PtTebd(initial_augmented_mps=b.mps, system_chain=b.sc, process_tensors=b.pts,
                        parameters=b.par, chain_control=b.ctl, dynamics_sites=b.sites,
                        backend_config=cfg)
-    r = obj.compute(spec["steps"], progress_type="silent")
+    if spec.get("inspect"):
+        # step by step, looking at the current state in between (must not change the results)
+        for k in range(1, spec["steps"] + 1):
+            r = obj.compute(k, progress_type="silent")
+            obj.get_current_density_matrix(b.sites[0])
+    else:
+        r = obj.compute(spec["steps"], progress_type="silent")
     dyn = {}
     for s in b.sites:
         key = str(s) if isinstance(s, int) else ",".join(str(x) for x in s)
@@ -444,7 +450,8 @@ def oracle_dense(spec, real=None, what="two-site"):
         if err > 1e-8:
             bad.append(("%s%s chain%s: sites %s differ from the propagator of the full Liouvillian"
                         % ("homogeneous " if spec.get("homogeneous") else "", what,
-                           " with ChainControl" if spec.get("controls") else "", key), {"spec": spec, "sites": keep, "max_abs_difference": err}))
+                           " with ChainControl" if spec.get("controls") else
+                           " inspected between steps" if spec.get("inspect") else "", key), {"spec": spec, "sites": keep, "max_abs_difference": err}))
     return bad
 
 
@@ -1254,6 +1261,8 @@ def control_specs(rng, tempo):
                                            sites=[0, 1, [0, 1]]), rng)),
         ("commuting", add_controls(gen_spec(rng, 3, "commuting", 2, steps=2, epsrel=1e-10,
                                             sites=[0, 1, 2, [0, 1], [0, 1, 2]]), rng)),
+        ("two-site", dict(gen_spec(rng, 2, "coupled", 2, steps=3, epsrel=1e-10,
+                                   sites=[0, 1, [0, 1]]), inspect=True)),
     ]
 
 
